@@ -10,7 +10,7 @@
 //! The same gates inject trait-level faults (fail a call before or after forwarding it).
 use crate::base::*;
 use crate::drivers::*;
-use crate::seq::{make_driver, open_backend, out_to_resp, scratch_root, Runner};
+use crate::seq::{make_driver, make_driver_raw_sqlite, open_backend, out_to_resp, scratch_root, Runner};
 use serde_json::{json, Value};
 use std::cell::Cell;
 use std::collections::{HashMap, HashSet};
@@ -330,6 +330,9 @@ pub struct RoundSpec {
     pub persist: bool,
     /// follow-ups go through the server object of request 1 (single-request rounds)
     pub follow_same: bool,
+    /// no harness wrapper between the server and the SQLite backend object, no gates: the requests of the round start
+    /// together and the operating system schedules them (stress)
+    pub raw: bool,
     /// lock contention (LD_PRELOAD shim): the next n attempts to take the SQLite write lock are refused
     pub lockbusy: Option<i64>,
 }
@@ -411,6 +414,7 @@ pub fn run_round(spec: &RoundSpec, policy: Policy, faults: Vec<(usize, usize, De
     let outs: Arc<Mutex<HashMap<usize, Out>>> = Arc::new(Mutex::new(HashMap::new()));
     let mut handles: HashMap<usize, std::thread::JoinHandle<()>> = HashMap::new();
     let proxies: std::cell::RefCell<HashMap<usize, ProxyDriver>> = std::cell::RefCell::new(HashMap::new());
+    let barrier = Arc::new(std::sync::Barrier::new(if spec.raw { spec.reqs.len() } else { 1 }));
     let start_thread = |rid: usize, handles: &mut HashMap<usize, std::thread::JoinHandle<()>>| {
         let q = spec.reqs[rid - 1].clone();
         let serve: Option<(std::sync::mpsc::Receiver<Cmd>, std::sync::mpsc::Sender<Reply>)> = if spec.follow_same && rid == 1 && !spec.follow.is_empty() {
@@ -436,12 +440,23 @@ pub fn run_round(spec: &RoundSpec, policy: Policy, faults: Vec<(usize, usize, De
             inner.clone()
         };
         ctl.mark_start(rid);
+        let (raw, dir2, barrier2) = (spec.raw, dir.clone(), barrier.clone());
         let h = std::thread::Builder::new()
             .stack_size(8 << 20)
             .spawn(move || {
                 RID.with(|r| r.set(rid));
                 let gate = Arc::new(GateStorage { ctl: ctl2.clone(), inner: storage });
-                let mut d = make_driver(&driver_kind, days, versions, None, Shared(gate));
+                let mut d = if raw {
+                    match make_driver_raw_sqlite(&driver_kind, days, versions, &dir2) {
+                        Ok(d) => d,
+                        Err(_) => make_driver(&driver_kind, days, versions, None, Shared(gate)),
+                    }
+                } else {
+                    make_driver(&driver_kind, days, versions, None, Shared(gate))
+                };
+                if raw {
+                    barrier2.wait();
+                }
                 let res = std::panic::catch_unwind(std::panic::AssertUnwindSafe(|| {
                     match q["op"].as_str().unwrap_or("") {
                         "AddVersion" => d.add_version(client, arg, body).0,
@@ -730,7 +745,7 @@ pub fn run_round(spec: &RoundSpec, policy: Policy, faults: Vec<(usize, usize, De
         "iofault": spec.iofault.map(|f| json!({"at": f.0, "errno": f.1, "persist": f.2, "after": f.3})).unwrap_or(json!({"at": 0, "errno": 0, "persist": false, "after": false})),
         "faulted": !faults.is_empty() || spec.iofault.is_some() || spec.lockbusy.is_some(),
         "lockbusy": {"n": spec.lockbusy.unwrap_or(0), "refused": lock_seen},
-        "follow": follow, "follow_same_server": same_server,
+        "follow": follow, "follow_same_server": same_server, "raw": spec.raw,
     });
     seedr.cleanup();
     Ok(RoundResult { event, decisions })
@@ -752,6 +767,7 @@ fn spec_of(j: &Value) -> RoundSpec {
         persist: false,
         follow_same: j["follow_same"].as_bool().unwrap_or(true),
         lockbusy: None,
+        raw: j["raw"].as_bool().unwrap_or(false) && j["backend"].as_str() == Some("sqlite"),
     }
 }
 
